@@ -773,6 +773,27 @@ Proof.
   cbn [rn_procdef pr_providers]. now rewrite map_ident_rn, IH, map_app.
 Qed.
 
+(* the acyclicity test of the 'uses' relation among processes (F29) only compares identifiers *)
+Lemma provider_index_rn ps x : provider_index (map (rn_procdef r) ps) (rc r x) = provider_index ps x.
+Proof.
+  unfold provider_index. generalize 0%nat as i. generalize (@None nat) as acc.
+  induction ps as [|q ps IH]; intros acc i; cbn [map]; [reflexivity|].
+  cbn [rn_procdef pr_providers]. rewrite map_ident_rn, (str_mem_inj _ Hc). apply IH.
+Qed.
+Lemma proc_uses_rn ps p : proc_uses (map (rn_procdef r) ps) (rn_procdef r p) = proc_uses ps p.
+Proof.
+  unfold proc_uses. cbn [rn_procdef pr_body pr_providers]. rewrite (free_names_rn1 r Hc), names_first_only_rn.
+  induction (names_first_only (free_names (pr_body p)) (pr_providers p)) as [|n l IH]; cbn [map flat_map]; [reflexivity|].
+  change (ident (rN n)) with (rc r (ident n)). now rewrite provider_index_rn, IH.
+Qed.
+Lemma procs_acyclic_rn ps : procs_acyclic (map (rn_procdef r) ps) = procs_acyclic ps.
+Proof.
+  unfold procs_acyclic. rewrite map_length, map_map.
+  replace (map (fun x => proc_uses (map (rn_procdef r) ps) (rn_procdef r x)) ps) with (map (proc_uses ps) ps)
+    by (apply map_ext; intros; symmetry; apply proc_uses_rn).
+  reflexivity.
+Qed.
+
 Definition rn_pn (p : list procdef * list name) : list procdef * list name := (map (rn_procdef r) (fst p), map rN (snd p)).
 Lemma prelim_procs_sim D ps assumed :
   prelim_procs (rD D) (map (rn_procdef r) ps) (map rN assumed) = tmap rn_pn (prelim_procs D ps assumed).
@@ -797,6 +818,7 @@ Proof.
   cbn [rn_pu fst snd].
   eapply sim_bind; [apply guard_sim | intros [] _].
   { f_equal. unfold kvmap. induction remaining as [|[k v] l IHl]; cbn [map existsb snd]; [reflexivity|]. now rewrite IHl. }
+  eapply sim_bind; [apply guard_sim; apply procs_acyclic_rn | intros [] _].
   reflexivity.
 Qed.
 Lemma ok_prelim_procs D ps assumed ps' assumed' : Forall okproc ps -> oknames assumed ->
